@@ -83,7 +83,10 @@ func TestVerifC01Main(t *testing.T) {
 		tmp := fmt.Sprintf("%s/g%d", base, n)
 		os.MkdirAll(tmp, 0755)
 		defer os.RemoveAll(tmp)
-		entries, ref := genHistory(rt, tmp, ircgen.Options{WithMoD: true}, 5, 60)
+		// one of the generator's profiles per history, as in the ircserver unit (seed C01c needs an
+		// operator's GLINE behind a configuration entry)
+		profile := rapid.SampledFrom([]string{"", "privilege", "membership"}).Draw(rt, "generator_profile")
+		entries, ref := genHistory(rt, tmp, ircgen.Options{WithMoD: true, Bias: profile}, 5, 60)
 		defer ref.close()
 		c := &c01bCase{Entries: entries}
 		multi := false
